@@ -44,6 +44,7 @@ type Engine struct {
 	ifaceImplCache map[*ssa.Function]bool
 	deferReach map[*ssa.Function]bool
 	curProp string
+	nilableElems map[string]bool // element types excluded from the non-nil container invariant
 	relCache map[string]map[*ssa.Function]bool
 }
 
@@ -77,7 +78,7 @@ func loadEngine(repoGo, specDir string) (*Engine, error) {
 		callees: map[*ssa.Function][]*ssa.Function{}, addrTaken: map[*ssa.Function]bool{},
 		cellClos: map[*FT]map[string]*Closure{}, usedExternals: map[string]string{},
 		ghostTypes: map[string]types.Type{}, srcCache: map[string][]string{}, implCache: map[string][]*ssa.Function{},
-		nilSafeRecv: map[string]bool{}, specInProgress: map[string]bool{}, paramCalls: map[*ssa.Function]map[int]bool{}}
+		nilSafeRecv: map[string]bool{}, nilableElems: map[string]bool{}, specInProgress: map[string]bool{}, paramCalls: map[*ssa.Function]map[int]bool{}}
 	for _, p := range spkgs {
 		if p == nil || !strings.HasPrefix(p.Pkg.Path(), repoPkgPrefix) {
 			continue
